@@ -182,6 +182,8 @@ where
         for st in in_pstack.iter() {
             start_cactus_pstack = start_cactus_pstack.child(*st);
         }
+        // Declared before everything else that refers to the chain, so that it is dropped last.
+        let _unwind = UnwindCactus(Some(start_cactus_pstack.clone()));
 
         let start_node = PathFNode {
             pstack: start_cactus_pstack,
@@ -520,6 +522,22 @@ where
         }
     }
     laidx
+}
+
+/// `Cactus` frees a chain of nodes recursively, so dropping the copy of a deep parse stack (one
+/// node per stack entry) can overflow the native stack. Whoever holds this guard until nothing
+/// else refers to the chain ends up freeing it, which the guard does iteratively.
+struct UnwindCactus<T>(Option<Cactus<T>>);
+
+impl<T> Drop for UnwindCactus<T> {
+    fn drop(&mut self) {
+        if let Some(mut c) = self.0.take() {
+            // Each step frees at most the one node that only `c` still refers to.
+            while let Some(p) = c.parent() {
+                c = p;
+            }
+        }
+    }
 }
 
 /// Simplifies repair sequences, removes duplicates, and sorts them into order.
